@@ -43,12 +43,23 @@ type c12Case struct {
 	// known-finding classification
 	tomb      map[string]bool // idxNo|vals : a deleted/changed entry with these unique-index values exists
 	nullSet   map[int]bool    // column was the target of a successful UPDATE … SET col = NULL
-	negZero   bool
+	// R13 (−0.0 / +0.0: equal values, different index keys): FLOAT columns into which a committed statement wrote −0.0
+	// (sticky), and FLOAT columns a statement of the CURRENT unit writes −0.0 into or compares with −0.0 (literal or
+	// parameter, row values, SET values, WHERE constants). Attributed only while such a column is a key column or a
+	// column of a live secondary index: nz().
+	nzStored  map[int]bool
+	nzUnit    map[int]bool
+	nzUnitW   map[int]bool // the part of nzUnit that was WRITTEN by a statement the engine accepted
+	r4Hit     bool         // the statement writes an explicit auto-increment key that a DELETE of the open tx removed
+	dupCause  map[string]string // UNIQUE duplicates already reported: index|values|pk1|pk2 -> cause
+	r9Seen    bool         // a failure attributed to R9 (stale maxPK inside a tx) was reported in the current unit
 	intxTaint bool
 	delTaint  bool // a DELETE earlier in the open tx removed rows
 	autoTaint bool // an explicit auto-increment key above the high-water mark was inserted earlier in the open tx
 	corr      bool // Lean correspondence lines are being emitted for this case
 	single    bool // restricted generator: autocommit statements writing at most one row
+	dd        *hx.Rng // own stream of the double-defect bias (c12_prec.go); nil = no bias
+	forced    *dml    // the next unit is this one autocommit statement (c12_prec.go)
 }
 
 func (c *c12Case) log(s string) { c.script = append(c.script, s) }
@@ -72,6 +83,9 @@ func (c *c12Case) exec(tx *sql.SQLTx, q sqlText) sqlXRes {
 }
 
 func (c *c12Case) fail(sig, desc string) {
+	if strings.HasSuffix(sig, ":explicit-autoincrement-key-in-same-tx") || sig == "C12:autoincrement:collision" {
+		c.r9Seen = true
+	}
 	c.r.Fail(sig, desc, c.replay(desc))
 }
 
@@ -98,6 +112,31 @@ func (c *c12Case) noteTombs(before, after *refTable) {
 	}
 }
 
+// A row that is written AND deleted again inside one transaction never shows in a committed state, yet it leaves a
+// deleted entry behind: the committed row entry is the deleted one (holding the last values), and the indexer maps it
+// into every index.  For the UNIQUE lookup (first entry under the prefix, deleted ones included) it is a tombstone like
+// the one of a committed row (R2).  c12Vers = last version of every row seen inside the open unit.
+type c12Vers map[string][]c15Val
+
+func (v c12Vers) see(t *refTable) {
+	for _, r := range t.rows {
+		v[sqlRowTok(t.pkOf(r))] = r
+	}
+}
+
+func (c *c12Case) noteUnitTombs(v c12Vers, final *refTable) {
+	for _, r := range v {
+		if final.find(final.pkOf(r)) >= 0 {
+			continue // still live (a changed version is covered by noteTombs / is no committed entry)
+		}
+		for ixn, ix := range c.sc.Idx {
+			if ix.Unique {
+				c.tomb[strconv.Itoa(ixn)+"|"+c12Vals(r, ix.Cols)] = true
+			}
+		}
+	}
+}
+
 // ---------------------------------------------------------------- invariants of the committed state
 
 func (c *c12Case) verify(where string, checkRef bool) {
@@ -115,11 +154,7 @@ func (c *c12Case) verify(where string, checkRef bool) {
 		s := sqlScan(eng, nil, sc, "t", ix.Cols)
 		r.OracleChecks++
 		if s.bag() != pk.bag() {
-			cause := ""
-			if c.negZero {
-				cause = ":negzero-float-key"
-			}
-			c.fail("C12:index:stale-or-missing-entry"+cause, fmt.Sprintf("%s: scan through index (%s) = %s %s but through the primary key = %s", where, sc.colNames(ix.Cols), s.Err, sqlRowsShow(s.Rows, 10), sqlRowsShow(pk.Rows, 10)))
+			c.fail("C12:index:stale-or-missing-entry", fmt.Sprintf("%s: scan through index (%s) = %s %s but through the primary key = %s", where, sc.colNames(ix.Cols), s.Err, sqlRowsShow(s.Rows, 10), sqlRowsShow(pk.Rows, 10)))
 		}
 	}
 	nopred := sqlQuery(eng, nil, sqlPlain("SELECT * FROM t"))
@@ -131,7 +166,11 @@ func (c *c12Case) verify(where string, checkRef bool) {
 	for i := range rows {
 		for j := i + 1; j < len(rows); j++ {
 			if sqlCmpTuple(c.ref.pkOf(rows[i]), c.ref.pkOf(rows[j])) == 0 {
-				c.fail("C12:constraint:duplicate-pk", fmt.Sprintf("%s: two live rows share the primary key: %s", where, sqlRowsShow([][]c15Val{rows[i], rows[j]}, 2)))
+				cause := ""
+				if sqlZerosDiffer(c.ref.pkOf(rows[i]), c.ref.pkOf(rows[j])) {
+					cause = ":negzero-float-key" // the two keys are SQL-equal but one holds −0.0 where the other holds +0.0 (R13)
+				}
+				c.fail("C12:constraint:duplicate-pk"+cause, fmt.Sprintf("%s: two live rows share the primary key: %s", where, sqlRowsShow([][]c15Val{rows[i], rows[j]}, 2)))
 			}
 		}
 	}
@@ -149,7 +188,7 @@ func (c *c12Case) verify(where string, checkRef bool) {
 						same = false
 						break
 					}
-					if rows[i][ci].ty == sql.Float64Type && !rows[i][ci].null && rows[i][ci].f != rows[j][ci].f {
+					if sqlZerosDiffer([]c15Val{rows[i][ci]}, []c15Val{rows[j][ci]}) {
 						zeros = true
 					}
 				}
@@ -162,6 +201,17 @@ func (c *c12Case) verify(where string, checkRef bool) {
 						cause = ":deleted-entry-hides-live-one"
 					case c.intxTaint:
 						cause = ":secondary-index-view-in-tx"
+					}
+					// a duplicate stays in the table: the SAME pair of rows found again by a later scan has the cause it had when
+					// the commit that created it was checked (the per-transaction flags are reset after every unit)
+					inst := strconv.Itoa(ixn) + "|" + c12Vals(rows[i], ix.Cols) + "|" + sqlRowTok(c.ref.pkOf(rows[i])) + "|" + sqlRowTok(c.ref.pkOf(rows[j]))
+					if c.dupCause == nil {
+						c.dupCause = map[string]string{}
+					}
+					if cause != "" {
+						c.dupCause[inst] = cause
+					} else if was, ok := c.dupCause[inst]; ok {
+						cause = was
 					}
 					c.fail("C12:constraint:unique-index-duplicate"+cause, fmt.Sprintf("%s: UNIQUE INDEX (%s) holds two live rows with equal values: %s", where, sc.colNames(ix.Cols), sqlRowsShow([][]c15Val{rows[i], rows[j]}, 2)))
 				}
@@ -200,7 +250,7 @@ func (c *c12Case) verify(where string, checkRef bool) {
 		r.OracleChecks++
 		want := sqlQRes{Rows: c.ref.sorted()}
 		if want.bag() != pk.bag() {
-			c.fail("C12:state:differs-from-reference"+c.cause(), fmt.Sprintf("%s: table = %s, reference = %s", where, sqlRowsShow(pk.Rows, 10), sqlRowsShow(want.Rows, 10)))
+			c.fail("C12:state:differs-from-reference"+c.causeNZ(), fmt.Sprintf("%s: table = %s, reference = %s", where, sqlRowsShow(pk.Rows, 10), sqlRowsShow(want.Rows, 10)))
 			c.ref.rows = pk.Rows // resync and go on
 			c.adoptMaxPK()
 		}
@@ -215,10 +265,61 @@ func (c *c12Case) cause() string {
 		return ":explicit-autoincrement-key-in-same-tx"
 	case c.intxTaint:
 		return ":secondary-index-view-in-tx"
-	case c.negZero:
+	}
+	return ""
+}
+
+// R13 is a cause only of the failure classes it is known to produce (each has a recipe in known_findings.json): a
+// second row under an equal key / unique tuple, a statement the reference rejects with dup-key, a WHERE constant
+// −0.0 that misses the rows holding +0.0 through an index range (affected rows, state)
+func (c *c12Case) causeNZ() string {
+	if cz := c.cause(); cz != "" {
+		return cz
+	}
+	if c.nz() {
 		return ":negzero-float-key"
 	}
 	return ""
+}
+
+func (c *c12Case) keyedCol(ci int) bool {
+	if c.sc.isPK(ci) {
+		return true
+	}
+	for _, ix := range c.idxLive {
+		for _, k := range ix.Cols {
+			if k == ci {
+				return true
+			}
+		}
+	}
+	return false
+}
+
+func (c *c12Case) nz() bool {
+	for ci := range c.nzStored {
+		if c.keyedCol(ci) {
+			return true
+		}
+	}
+	for ci := range c.nzUnit {
+		if c.keyedCol(ci) {
+			return true
+		}
+	}
+	return false
+}
+
+func sqlIsNegZero(v c15Val) bool { return !v.null && v.ty == sql.Float64Type && v.f == 1<<63 }
+
+// two SQL-equal tuples that differ in the sign of a FLOAT zero
+func sqlZerosDiffer(a, b []c15Val) bool {
+	for i := range a {
+		if !a[i].null && !b[i].null && a[i].ty == sql.Float64Type && b[i].ty == sql.Float64Type && a[i].f != b[i].f && sqlCmpVal(a[i], b[i]) == 0 {
+			return true
+		}
+	}
+	return false
 }
 
 // ---------------------------------------------------------------- statement outcome vs the reference
@@ -248,6 +349,11 @@ func (c *c12Case) compareStmt(d *dml, txt sqlText, pred refOut, engErr string, e
 		if pred.Err == "invalid-value" && (c.autoTaint || c.explicitAbove(d)) {
 			cause = ":explicit-autoincrement-key-in-same-tx"
 		}
+		if c.r4Hit {
+			// R4 (see deletedInTx): the key of the rejected row was deleted earlier in this transaction and tx.get still finds
+			// it: ON CONFLICT DO NOTHING skips the row before max-len / UNIQUE / pkMustExist are looked at, UPSERT passes pkMustExist
+			cause = ":row-deleted-earlier-in-same-tx"
+		}
 		c.fail("C12:must-fail:accepted:"+pred.Err+cause, fmt.Sprintf("the statement must fail with %s but the engine accepted it: %s", pred.Err, txt.String()))
 	case pred.Err == "" && engErr != "":
 		cause := c.cause()
@@ -266,6 +372,15 @@ func (c *c12Case) compareStmt(d *dml, txt sqlText, pred refOut, engErr string, e
 		if strings.Contains(engErr, "non-transient key to transient") {
 			engErr, cause = "transient-key-clash", ""
 		}
+		if engErr != "dup-key" && engErr != "transient-key-clash" && (c.delTaint || c.autoTaint) {
+			// R4 (deleted key still found) and R9 (stale maxPK) can only end in 'key already exists'; a valid statement that
+			// fails with another class read a row the reference does not see: on an indexed table that is the in-transaction
+			// view of the secondary indexes (R1: a row deleted or changed earlier in the transaction is still listed)
+			cause = ""
+			if c.intxTaint {
+				cause = ":secondary-index-view-in-tx"
+			}
+		}
 		c.fail("C12:stmt:spurious-failure:"+engErr+cause, fmt.Sprintf("the statement is valid (reference: ok, %d rows) but the engine failed with %s: %s", pred.Updated, engErr, txt.String()))
 	case pred.Err != "" && engErr != "":
 		if pred.Err != engErr {
@@ -279,7 +394,13 @@ func (c *c12Case) compareStmt(d *dml, txt sqlText, pred refOut, engErr string, e
 		}
 		if pred.HasLast && lastPK != nil {
 			if got, ok := lastPK["t"]; !ok || got != pred.LastPK {
-				c.fail("C12:stmt:last-inserted-pk-differs"+c.cause(), fmt.Sprintf("engine reports last inserted pk %v, reference %d: %s", lastPK, pred.LastPK, txt.String()))
+				cz := c.cause()
+				if c.autoTaint {
+					// the generated key is table.maxPK+1 and nothing else: of the known causes only the stale maxPK (R9) can move
+					// it; a DELETE earlier in the transaction (R4) cannot
+					cz = ":explicit-autoincrement-key-in-same-tx"
+				}
+				c.fail("C12:stmt:last-inserted-pk-differs"+cz, fmt.Sprintf("engine reports last inserted pk %v, reference %d: %s", lastPK, pred.LastPK, txt.String()))
 			}
 		}
 	}
@@ -303,14 +424,14 @@ func (c *c12Case) explicitAbove(d *dml) bool {
 }
 
 func (c *c12Case) cause2(d *dml) string {
-	if cz := c.cause(); cz != "" && cz != ":negzero-float-key" {
+	if cz := c.cause(); cz != "" {
 		return cz
 	}
 	return c.uniqueCause(d)
 }
 
 func (c *c12Case) uniqueCause(d *dml) string {
-	if c.negZero {
+	if c.nz() {
 		return ":negzero-float-key"
 	}
 	if len(c.tomb) > 0 {
@@ -322,19 +443,86 @@ func (c *c12Case) uniqueCause(d *dml) string {
 	return ""
 }
 
-func (c *c12Case) noteDML(d *dml) {
+// R13 bookkeeping, BEFORE the statement's outcome is compared: every −0.0 the statement writes (row values, SET
+// values) or compares with (WHERE constants), literal or parameter
+func (c *c12Case) noteNZ(d *dml) {
+	if c.nzUnit == nil {
+		c.nzUnit, c.nzUnitW = map[int]bool{}, map[int]bool{}
+	}
 	for _, row := range d.Rows {
-		for _, v := range row {
-			if !v.null && v.ty == sql.Float64Type && v.f == 1<<63 {
-				c.negZero = true
+		for k, v := range row {
+			if sqlIsNegZero(v) {
+				c.nzUnit[d.Cols[k]] = true
 			}
 		}
 	}
 	for _, s := range d.Set {
-		if !s.V.null && s.V.ty == sql.Float64Type && s.V.f == 1<<63 {
-			c.negZero = true
+		if sqlIsNegZero(s.V) {
+			c.nzUnit[s.Col] = true
 		}
 	}
+	if d.Where != nil {
+		d.Where.negZeroCols(c.nzUnit)
+	}
+}
+
+// the statement was accepted by the engine: what it wrote may be stored at COMMIT
+func (c *c12Case) noteDML(d *dml) {
+	if c.nzUnitW == nil {
+		c.nzUnit, c.nzUnitW = map[int]bool{}, map[int]bool{}
+	}
+	for _, row := range d.Rows {
+		for k, v := range row {
+			if sqlIsNegZero(v) {
+				c.nzUnitW[d.Cols[k]] = true
+			}
+		}
+	}
+	for _, s := range d.Set {
+		if sqlIsNegZero(s.V) {
+			c.nzUnitW[s.Col] = true
+		}
+	}
+}
+
+// end of a unit: −0.0 values written by a committed unit stay in the table
+func (c *c12Case) endUnitNZ(committed bool) {
+	if committed {
+		if c.nzStored == nil {
+			c.nzStored = map[int]bool{}
+		}
+		for ci := range c.nzUnitW {
+			c.nzStored[ci] = true
+		}
+	}
+	c.nzUnit, c.nzUnitW = nil, nil
+}
+
+// R4, exact: the reference rejects VALUES row pred.FailRow with an error that the engine raises only AFTER the existence
+// test tx.get(mappedPKey) — ErrInvalidValue of pkMustExist, ErrMaxLengthExceeded of a non-key column and the UNIQUE
+// lookup (both inside doUpsert) — and the key of that row was live when the unit began and has been deleted by an
+// earlier statement of the unit (pend = the reference state inside the open transaction).  tx.get still finds such a
+// key, so INSERT … ON CONFLICT DO NOTHING skips the row (none of the three checks is reached) and UPSERT passes
+// pkMustExist.
+func (c *c12Case) deletedInTx(d *dml, pend *refTable, pred refOut) bool {
+	if d == nil || pend == nil || !c.delTaint || pred.Err == "" || pred.FailRow < 0 || pred.FailRow >= len(d.Rows) {
+		return false
+	}
+	switch {
+	case d.K == "insert-ocn" && (pred.Err == "invalid-value" || pred.Err == "max-len" || pred.Err == "dup-key"):
+	case d.K == "upsert" && pred.Err == "invalid-value":
+	default:
+		return false
+	}
+	pk := make([]c15Val, 0, len(c.sc.PK))
+	for _, p := range c.sc.PK {
+		k := dmlColPos(d, p)
+		if k < 0 || d.Rows[pred.FailRow][k].null {
+			return false
+		}
+		pk = append(pk, refStore(c.sc.Cols[p], d.Rows[pred.FailRow][k]))
+	}
+	return c.ref.find(pk) >= 0 && pend.find(pk) < 0
 }
 
 // ---------------------------------------------------------------- sequential mode
@@ -346,7 +534,7 @@ func (c *c12Case) dmlOpts() dmlOpts {
 func (c *c12Case) unit() {
 	r, rng, sc := c.r, c.rng, c.sc
 	kind := rng.Intn(100)
-	if c.single {
+	if c.single || c.forced != nil {
 		kind = 0
 	} else if c.corr && kind >= 55 && kind < 70 {
 		kind = 80 // per-statement answers of an implicit multi-statement tx are not observable
@@ -364,13 +552,20 @@ func (c *c12Case) unit() {
 	}
 	before := sqlScan(c.env.eng, nil, sc, "t", sc.PK)
 	pend := c.ref.clone()
+	vers := c12Vers{}
 	c.intxTaint, c.autoTaint, c.delTaint = false, false, false
 	var stmts []*dml
 	var txts []sqlText
 	for i := 0; i < n; i++ {
-		d := sqlGenDML(rng, sc, c.dmlOpts())
-		if c.single {
-			d = sqlGenDML1(rng, sc, c.dmlOpts(), c.ref.rows)
+		var d *dml
+		if c.forced != nil {
+			d = c.forced
+		} else {
+			d = sqlGenDML(rng, sc, c.dmlOpts())
+			if c.single {
+				d = sqlGenDML1(rng, sc, c.dmlOpts(), c.ref.rows)
+			}
+			c.maybeDoubleDefect(d, pend)
 		}
 		stmts = append(stmts, d)
 		txts = append(txts, d.text(sc, "t", rng.U64()))
@@ -396,7 +591,10 @@ func (c *c12Case) unit() {
 		}
 		tmp := pend.clone()
 		pred := tmp.exec(d)
+		c.noteNZ(d)
+		c.r4Hit = c.deletedInTx(d, pend, pred)
 		c.compareStmt(d, txts[i], pred, engErr, engUpd, lastPK, inTx)
+		c.r4Hit = false
 		if sc.autoInc() {
 			for k, ci := range d.Cols {
 				if sc.Cols[ci].AutoInc {
@@ -413,6 +611,7 @@ func (c *c12Case) unit() {
 		}
 		if pred.Err == "" && !pred.OrderDep {
 			pend = tmp
+			vers.see(pend)
 			if d.K == "delete" && pred.Updated > 0 {
 				c.delTaint = true
 			}
@@ -499,17 +698,23 @@ func (c *c12Case) unit() {
 			tmp := pend.clone()
 			total, failed := 0, ""
 			orderDep := false
+			var failedStmt *dml
+			r4 := false
 			for _, d := range stmts {
+				c.noteNZ(d)
+				before := tmp.clone()
 				o := tmp.exec(d)
 				if o.OrderDep {
 					orderDep = true
 				}
 				if o.Err != "" {
-					failed = o.Err
+					failed, failedStmt = o.Err, d
+					r4 = c.deletedInTx(d, before, o)
 					break
 				}
 				total += o.Updated
 				c.noteDML(d)
+				vers.see(tmp)
 			}
 			r.OracleChecks++
 			switch {
@@ -517,7 +722,16 @@ func (c *c12Case) unit() {
 				r.Count("stmt.order-dependent")
 				pend.rows, pend.maxPK = nil, -1
 			case failed != "" && res.Err == "":
-				cz := c.uniqueCause(nil)
+				cz := ""
+				if failed == "dup-key" {
+					cz = c.uniqueCause(nil)
+				}
+				if failed == "invalid-value" && (c.autoTaint || c.explicitAbove(failedStmt)) {
+					cz = ":explicit-autoincrement-key-in-same-tx"
+				}
+				if r4 {
+					cz = ":row-deleted-earlier-in-same-tx"
+				}
 				if failed == "not-null" || failed == "check" {
 					cz = ""
 					for _, d := range stmts {
@@ -535,12 +749,17 @@ func (c *c12Case) unit() {
 				cz := c.cause()
 				if res.Err == "transient-key-clash" {
 					cz = ""
+				} else if res.Err != "dup-key" && (c.delTaint || c.autoTaint) {
+					cz = "" // R4 / R9 end in 'key already exists' only (see compareStmt)
+					if c.intxTaint {
+						cz = ":secondary-index-view-in-tx"
+					}
 				}
 				c.fail("C12:stmt:spurious-failure:"+res.Err+cz, "all statements are valid for the reference but the engine failed with "+res.Err+": "+strings.Join(sqls, "; "))
 			case failed == "" && res.Err == "":
 				if total != res.Updated {
 					c.intxTaint = len(c.idxLive) > 0
-					c.fail("C12:stmt:affected-rows-differ"+c.cause(), fmt.Sprintf("engine reports %d affected rows, reference %d: %s", res.Updated, total, strings.Join(sqls, "; ")))
+					c.fail("C12:stmt:affected-rows-differ"+c.causeNZ(), fmt.Sprintf("engine reports %d affected rows, reference %d: %s", res.Updated, total, strings.Join(sqls, "; ")))
 				}
 				pend = tmp
 			}
@@ -616,6 +835,8 @@ func (c *c12Case) unit() {
 			c.fail("C12:failed-stmt:left-trace"+c.cause(), fmt.Sprintf("a failed statement / rolled back transaction changed the table: before %s, after %s", sqlRowsShow(before.Rows, 10), sqlRowsShow(after.Rows, 10)))
 		}
 		c.intxTaint, c.autoTaint, c.delTaint = false, false, false
+		c.r9Seen = false
+		c.endUnitNZ(false)
 		return
 	}
 	if committed {
@@ -632,13 +853,22 @@ func (c *c12Case) unit() {
 			old := c.ref.clone()
 			c.ref.rows = cur.Rows
 			c.noteTombs(old, c.ref)
+			c.noteUnitTombs(vers, c.ref)
 			c.adoptMaxPK()
 		} else {
 			c.noteTombs(c.ref, pend)
+			c.noteUnitTombs(vers, pend)
 			c.prevMaxPK = c.ref.maxPK
 			c.ref = pend
 			c.verify("after commit", true)
 			c.resyncMaxPK()
+			if c.r9Seen {
+				// the unit diverged from the reference through R9 (reported above as a known finding: generated keys
+				// below an explicit key of the same transaction): the reference's high-water mark was computed from
+				// ITS generated keys; later predictions need the engine's own mark
+				c.adoptMaxPK()
+				c.r.Count("resync.maxpk-after-r9")
+			}
 		}
 		c.autoIncCheck()
 		if c.sc.autoInc() {
@@ -646,6 +876,8 @@ func (c *c12Case) unit() {
 		}
 	}
 	c.intxTaint, c.autoTaint, c.delTaint = false, false, false
+	c.r9Seen = false
+	c.endUnitNZ(committed)
 }
 
 // the engine's high-water mark is the largest key EVER stored; the reference keeps its own, but
@@ -734,6 +966,12 @@ func c12SchemaToks(sc *sqlSchema, idx []sqlIdx) string {
 }
 
 func (c *c12Case) setup(tag string, o sqlGenOpts) bool {
+	c.sc = sqlGenSchema(c.rng, "t", o)
+	return c.setupSchema(tag)
+}
+
+// creates the table c.sc (and its indexes) on a fresh engine
+func (c *c12Case) setupSchema(tag string) bool {
 	r := c.r
 	env, err := sqlOpenEnv(tag)
 	if err != nil {
@@ -741,7 +979,6 @@ func (c *c12Case) setup(tag string, o sqlGenOpts) bool {
 		return false
 	}
 	c.env = env
-	c.sc = sqlGenSchema(c.rng, "t", o)
 	c.ref = &refTable{sc: c.sc}
 	c.tomb, c.nullSet = map[string]bool{}, map[int]bool{}
 	if res := c.exec(nil, sqlPlain(c.sc.createTable("t"))); res.Err != "" {
@@ -854,6 +1091,7 @@ type c12Session struct {
 	started   int        // commit counter at BEGIN
 	autoTaint bool
 	delT      bool         // a DELETE of this tx removed rows
+	vers      c12Vers      // last version of every row seen inside the transaction (rows written and deleted again leave a tombstone)
 	unknown   bool         // the engine accepted what the reference rejects: adopt the engine's state at COMMIT
 	nullCols  map[int]bool // columns set to NULL by an UPDATE of this tx
 }
@@ -968,6 +1206,9 @@ func (c *c12Case) runInterleaved(thorough bool) {
 				newRef.maxPK = s.pend.maxPK
 			}
 			c.noteTombs(c.ref, newRef)
+			if s.vers != nil && s.pend != nil {
+				c.noteUnitTombs(s.vers, s.pend)
+			}
 			c.ref = newRef
 			c.autoTaint, c.delTaint = s.autoTaint, s.delT
 			c.intxTaint = len(c.idxLive) > 0 && len(s.stmts) > 0
@@ -987,6 +1228,13 @@ func (c *c12Case) runInterleaved(thorough bool) {
 			}
 			c.autoTaint, c.intxTaint, c.delTaint = false, false, false
 			c.resyncMaxPK()
+			if s.autoTaint {
+				// R9 territory (explicit key above the mark inside the transaction: the keys it generated afterwards may
+				// lie below the reference's): take the engine's mark for the sessions that begin from now on
+				c.adoptMaxPK()
+				c.r.Count("resync.maxpk-after-r9")
+			}
+			c.r9Seen = false
 			continue
 		}
 		d := sqlGenDML(rng, c.sc, do)
@@ -1031,6 +1279,10 @@ func (c *c12Case) runInterleaved(thorough bool) {
 			s.unknown = true
 		} else {
 			s.pend = tmp
+			if s.vers == nil {
+				s.vers = c12Vers{}
+			}
+			s.vers.see(s.pend)
 			if d.K == "delete" && o.Updated > 0 {
 				s.delT = true
 			}
@@ -1131,8 +1383,15 @@ func runC12(r *hx.Result, rng *hx.Rng, thorough bool, replay string) error {
 	if thorough {
 		cases = 400
 	}
+	// the double-defect bias draws from its own stream, derived from a COPY of the generator state: the statements the
+	// older modes generate for a seed do not change
+	cp := *rng
+	ddRoot := hx.NewRng(cp.U64() ^ 0xdd0dd0dd)
 	for i := 0; i < cases; i++ {
 		c := &c12Case{r: r, rng: rng.Fork()}
+		if i%6 < 4 {
+			c.dd = ddRoot.Fork()
+		}
 		switch {
 		case i%6 == 4:
 			c.runInterleaved(thorough)
@@ -1169,7 +1428,22 @@ func runC12(r *hx.Result, rng *hx.Rng, thorough bool, replay string) error {
 	if err := runC12DDL(r, rng.Fork(), thorough); err != nil {
 		return err
 	}
-	for _, k := range []string{"unit.auto", "unit.explicit", "unit.implicit-multi", "unit.aborted", "unit.committed", "mode.interleaved", "mode.goroutines", "interleaved.commit.ok",
+	// error precedence (c12_prec.go): every applicable pair of simultaneous defects × INSERT / UPSERT / ON CONFLICT
+	np := 4
+	if thorough {
+		np = 12
+	}
+	for i := 0; i < np; i++ {
+		c := &c12Case{r: r, rng: rng.Fork()}
+		c.runPrecedence(thorough, i)
+		if i%4 == 3 {
+			if err := r.Flush(); err != nil {
+				return err
+			}
+		}
+	}
+	for _, k := range []string{"mode.precedence", "dd.sweep", "dd.injected", "dd.key-long+key-omit", "dd.key-long+key-null", "dd.check+key-null", "dd.key-omit+nn-omit", "dd.key-long+val-long",
+		"dd.auto-stale+val-long", "dd.key-exists+val-long", "unit.auto", "unit.explicit", "unit.implicit-multi", "unit.aborted", "unit.committed", "mode.interleaved", "mode.goroutines", "interleaved.commit.ok",
 		"mode.race-scheduled", "mode.race-goroutines", "race.commit.ok", "race.commit.read-conflict", "race.tuple.hot", "race.conflict.unique.detected-at-commit"} {
 		if r.Distribution[k] == 0 {
 			r.Inconclusive = append(r.Inconclusive, "generator never produced class "+k)
